@@ -263,6 +263,68 @@ pub fn check_upload(t: &Table, c: &UploadCase) -> CheckResult {
     Ok(())
 }
 
+/// C06 for the upload stream: good requests, then one fault at `pos` (0 = instead of the acknowledgement of the
+/// announcement, j = instead of the j-th request). Exactly one error, then silence: no data block, no acknowledgement.
+pub fn check_upload_fault(t: &Table, c: &UploadCase, pos: usize, kind: &str, fault: &[u8]) -> CheckResult {
+    let input = json!({"case": c, "pos": pos, "kind": kind, "fault": hex(fault)});
+    let v = |k: &str, detail: String| Err(Violation::new("upload-fault", format!("C06 seq=feig.WriteFile fault={kind} kind={k}"), detail, input.clone()));
+    let dir = tempfile::Builder::new().prefix("zvtverif-c06-").tempdir().map_err(|e| Violation::new("upload-fault", "C06 kind=harness-io".to_string(), e.to_string(), input.clone()))?;
+    let mut present: std::collections::BTreeMap<u8, Vec<u8>> = Default::default();
+    for f in &c.files {
+        if f.which >= 100 {
+            continue;
+        }
+        let p = dir.path().join(RECOGNISED[f.which % 21].0);
+        std::fs::create_dir_all(p.parent().unwrap()).ok();
+        let data = content(f.seed, f.size);
+        std::fs::write(&p, &data).ok();
+        present.insert(RECOGNISED[f.which % 21].1, data);
+    }
+    if present.is_empty() {
+        return Ok(());
+    }
+    let before = if pos == 0 { 0 } else { pos - 1 };
+    if c.requests.len() < before || c.requests[..before].iter().any(|r| !r.malformed.is_empty() || !present.contains_key(&r.id)) {
+        return Ok(());
+    }
+    let mut script: Vec<Vec<u8>> = vec![];
+    if pos == 0 {
+        script.push(fault.to_vec());
+    } else {
+        script.push(ACK.to_vec());
+        for r in &c.requests[..before] {
+            script.push(request_bytes(t, r));
+        }
+        script.push(fault.to_vec());
+    }
+    // a terminal that sent a complete wrong packet carries on with a completion
+    if fault.len() >= 3 {
+        script.push(vec![0x06, 0x0f, 0x00]);
+    }
+    let peer = Peer::scripted(script, vec![], c.chunks.clone());
+    let run = guard(|| run_write_file(dir.path().to_path_buf(), c.password as usize, c.block, peer, before + 4)).map_err(|p| Violation::new("upload-fault", "C06 seq=feig.WriteFile kind=panic".to_string(), p, input.clone()))?;
+    for k in 0..before {
+        if !matches!(run.snaps.get(k).map(|s| &s.item), Some(Some(Ok(_)))) {
+            return v("wrong-item-before-fault", format!("item {k}: {:?}", run.snaps.get(k).map(|s| &s.item)));
+        }
+    }
+    if !matches!(run.snaps.get(before).map(|s| &s.item), Some(Some(Err(_)))) {
+        return v("fault-not-reported", format!("{kind} at position {pos} ({}): item {:?} where exactly one error is due", clip(&hex(fault), 60), run.snaps.get(before).map(|s| &s.item)));
+    }
+    let err_log = run.snaps[before].log_len;
+    for k in before + 1..before + 3 {
+        match run.snaps.get(k) {
+            Some(sn) if sn.item.is_none() && sn.log_len == err_log => {}
+            other => return v("activity-after-error", format!("after the error: {:?}", other.map(|s| (&s.item, s.log_len - err_log)))),
+        }
+    }
+    let (n, stray) = run.peer.with(|p| (p.client_apdus.len(), p.outbuf.len()));
+    if n != pos.max(1) || stray != 0 {
+        return v("wrote-after-fault", format!("{kind} at position {pos}: {n} packets written (+{stray} stray bytes), expected {} (the announcement and one data block per good request)", pos.max(1)));
+    }
+    Ok(())
+}
+
 pub fn replay(_check: &str, i: &Value) -> Option<CheckResult> {
     let _g = Quiet::new();
     Some(check_upload(&crate::table(), &serde_json::from_value(i.clone()).ok()?))
